@@ -242,3 +242,164 @@ fn find_reindex_ids() {
     }
     println!("NO-WITNESS find_reindex_ids");
 }
+
+// ------------------------------------------------------------------------------------------------------------------
+// Store-level consistency (C01, C02, C03, C10): the forward references of every live annotation against every reverse
+// index, read directly from the private fields, after each step of a set of small histories.
+
+fn count<T: PartialEq>(v: Option<&Vec<T>>, x: &T) -> usize { v.map(|v| v.iter().filter(|y| *y == x).count()).unwrap_or(0) }
+
+/// first inconsistency between forward references and reverse indices, if any
+fn store_inconsistency(store: &AnnotationStore) -> Option<String> {
+    let cfg = store.config.clone();
+    // forward -> reverse
+    for (i, slot) in store.annotations.iter().enumerate() {
+        let a = match slot { Some(a) => a, None => continue };
+        let h = AnnotationHandle::new(i);
+        if a.handle() != Some(h) { return Some(format!("annotation at {} carries handle {:?}", i, a.handle())); }
+        if let Some(id) = a.id() {
+            match <AnnotationStore as StoreFor<Annotation>>::resolve_id(store, id) { Ok(r) if r == h => {}, other => return Some(format!("id {} of annotation {} resolves to {:?}", id, i, other.ok())) }
+        }
+        for (set, data) in a.raw_data() {
+            if count(store.dataset_data_annotation_map.get(*set, *data), &h) != 1 { return Some(format!("annotation {} uses data {:?} but dataset_data_annotation_map lists it {} times", i, (set, data), count(store.dataset_data_annotation_map.get(*set, *data), &h))); }
+            let ds: &AnnotationDataSet = match store.get(*set) { Ok(d) => d, Err(_) => return Some(format!("annotation {} uses data of removed dataset {:?}", i, set)) };
+            if <AnnotationDataSet as StoreFor<AnnotationData>>::get(ds, *data).is_err() { return Some(format!("annotation {} uses removed data {:?}", i, (set, data))); }
+        }
+        for sel in a.target().iter(store, false) {
+            let (name, n, want) = match sel.as_ref() {
+                Selector::TextSelector(r, t, _) => ("textrelationmap", count(store.textrelationmap.get(*r, *t), &h), cfg.textrelationmap),
+                Selector::AnnotationSelector(a2, off) => {
+                    if let Some((r, t, _)) = off { if cfg.textrelationmap && count(store.textrelationmap.get(*r, *t), &h) != 1 { return Some(format!("annotation {} targets text of annotation {:?} but textrelationmap lists it {} times", i, a2, count(store.textrelationmap.get(*r, *t), &h))); } }
+                    if cfg.annotation_annotation_map && <AnnotationStore as StoreFor<Annotation>>::get(store, *a2).is_err() { return Some(format!("annotation {} targets removed annotation {:?}", i, a2)); }
+                    ("annotation_annotation_map", count(store.annotation_annotation_map.get(*a2), &h), cfg.annotation_annotation_map)
+                }
+                Selector::ResourceSelector(r) => ("resource_annotation_metamap", count(store.resource_annotation_metamap.get(*r), &h), cfg.resource_annotation_metamap),
+                Selector::DataSetSelector(s) => ("dataset_annotation_metamap", count(store.dataset_annotation_metamap.get(*s), &h), cfg.dataset_annotation_metamap),
+                Selector::DataKeySelector(s, k) => ("key_annotation_metamap", count(store.key_annotation_metamap.get(*s, *k), &h), cfg.key_annotation_metamap),
+                Selector::AnnotationDataSelector(s, d) => ("data_annotation_metamap", count(store.data_annotation_metamap.get(*s, *d), &h), cfg.data_annotation_metamap),
+                _ => continue,
+            };
+            if want && n != 1 { return Some(format!("annotation {} has target {:?} but {} lists it {} times", i, sel.as_ref(), name, n)); }
+        }
+    }
+    // reverse -> forward
+    let live = |h: &AnnotationHandle| matches!(store.annotations.get(h.as_usize()), Some(Some(_)));
+    let leafs = |h: &AnnotationHandle| -> Vec<Selector> { store.annotations[h.as_usize()].as_ref().unwrap().target().iter(store, false).map(|s| s.into_owned()).collect() };
+    for (s, inner) in store.dataset_data_annotation_map.data.iter().enumerate() { for (d, hs) in inner.data.iter().enumerate() { for h in hs {
+        if !live(h) { return Some(format!("dataset_data_annotation_map[{}][{}] lists removed annotation {:?}", s, d, h)); }
+        if !store.annotations[h.as_usize()].as_ref().unwrap().raw_data().iter().any(|(s2, d2)| s2.as_usize() == s && d2.as_usize() == d) { return Some(format!("dataset_data_annotation_map[{}][{}] lists annotation {:?} which does not use that data", s, d, h)); }
+    }}}
+    for (r, inner) in store.textrelationmap.data.iter().enumerate() { for (t, hs) in inner.data.iter().enumerate() { for h in hs {
+        if !live(h) { return Some(format!("textrelationmap[{}][{}] lists removed annotation {:?}", r, t, h)); }
+        if !leafs(h).iter().any(|sel| match sel { Selector::TextSelector(r2, t2, _) => r2.as_usize() == r && t2.as_usize() == t, Selector::AnnotationSelector(_, Some((r2, t2, _))) => r2.as_usize() == r && t2.as_usize() == t, _ => false }) { return Some(format!("textrelationmap[{}][{}] lists annotation {:?} which does not target that text", r, t, h)); }
+    }}}
+    for (r, hs) in store.resource_annotation_metamap.data.iter().enumerate() { for h in hs {
+        if !live(h) { return Some(format!("resource_annotation_metamap[{}] lists removed annotation {:?}", r, h)); }
+        if !leafs(h).iter().any(|sel| matches!(sel, Selector::ResourceSelector(r2) if r2.as_usize() == r)) { return Some(format!("resource_annotation_metamap[{}] lists annotation {:?} which does not target it", r, h)); }
+    }}
+    for (s, hs) in store.dataset_annotation_metamap.data.iter().enumerate() { for h in hs {
+        if !live(h) { return Some(format!("dataset_annotation_metamap[{}] lists removed annotation {:?}", s, h)); }
+        if !leafs(h).iter().any(|sel| matches!(sel, Selector::DataSetSelector(s2) if s2.as_usize() == s)) { return Some(format!("dataset_annotation_metamap[{}] lists annotation {:?} which does not target it", s, h)); }
+    }}
+    for (a2, hs) in store.annotation_annotation_map.data.iter() { for h in hs {
+        if !live(h) { return Some(format!("annotation_annotation_map[{:?}] lists removed annotation {:?}", a2, h)); }
+        if !leafs(h).iter().any(|sel| matches!(sel, Selector::AnnotationSelector(x, _) if x == a2)) { return Some(format!("annotation_annotation_map[{:?}] lists annotation {:?} which does not target it", a2, h)); }
+    }}
+    for (s, inner) in store.key_annotation_metamap.data.iter().enumerate() { for (k, hs) in inner.data.iter().enumerate() { for h in hs {
+        if !live(h) { return Some(format!("key_annotation_metamap[{}][{}] lists removed annotation {:?}", s, k, h)); }
+        if !leafs(h).iter().any(|sel| matches!(sel, Selector::DataKeySelector(s2, k2) if s2.as_usize() == s && k2.as_usize() == k)) { return Some(format!("key_annotation_metamap[{}][{}] lists annotation {:?} which does not target it", s, k, h)); }
+    }}}
+    for (s, inner) in store.data_annotation_metamap.data.iter().enumerate() { for (d, hs) in inner.data.iter().enumerate() { for h in hs {
+        if !live(h) { return Some(format!("data_annotation_metamap[{}][{}] lists removed annotation {:?}", s, d, h)); }
+        if !leafs(h).iter().any(|sel| matches!(sel, Selector::AnnotationDataSelector(s2, d2) if s2.as_usize() == s && d2.as_usize() == d)) { return Some(format!("data_annotation_metamap[{}][{}] lists annotation {:?} which does not target it", s, d, h)); }
+    }}}
+    // datasets: key -> data exact (through the crate-visible accessors: the fields themselves are private to their module)
+    for (si, slot) in store.annotationsets.iter().enumerate() {
+        let ds = match slot { Some(d) => d, None => continue };
+        let datastore = <AnnotationDataSet as StoreFor<AnnotationData>>::store(ds);
+        let keystore = <AnnotationDataSet as StoreFor<DataKey>>::store(ds);
+        for (di, dslot) in datastore.iter().enumerate() {
+            let d = match dslot { Some(d) => d, None => continue };
+            let dh = AnnotationDataHandle::new(di);
+            if count(ds.data_by_key(d.key()), &dh) != 1 { return Some(format!("dataset {}: data {} has key {:?} but key_data_map lists it {} times", si, di, d.key(), count(ds.data_by_key(d.key()), &dh))); }
+            if <AnnotationDataSet as StoreFor<DataKey>>::get(ds, d.key()).is_err() { return Some(format!("dataset {}: data {} has removed key {:?}", si, di, d.key())); }
+        }
+        for k in 0..keystore.len() { if let Some(hs) = ds.data_by_key(DataKeyHandle::new(k)) { for dh in hs {
+            match datastore.get(dh.as_usize()) { Some(Some(d)) if d.key().as_usize() == k => {}, _ => return Some(format!("dataset {}: key_data_map[{}] lists {:?}, which is not live data of that key", si, k, dh)) }
+        }}}
+    }
+    None
+}
+
+fn consistency_base(cfg: Config) -> AnnotationStore {
+    let mut store = AnnotationStore::new(cfg)
+        .with_resource(TextResourceBuilder::new().with_id("r0").with_text("hello world")).unwrap()
+        .with_resource(TextResourceBuilder::new().with_id("r1").with_text("second text")).unwrap()
+        .with_dataset(AnnotationDataSetBuilder::new().with_id("d0")).unwrap()
+        .with_dataset(AnnotationDataSetBuilder::new().with_id("d1")).unwrap();
+    let t = |r: &'static str, b: usize, e: usize| SelectorBuilder::textselector(r, Offset::simple(b, e));
+    let steps: Vec<AnnotationBuilder> = vec![
+        AnnotationBuilder::new().with_id("A0").with_target(t("r1", 0, 6)).with_data("d1", "k0", "x"),
+        AnnotationBuilder::new().with_id("A1").with_target(t("r0", 0, 5)).with_data("d0", "k0", "x").with_data("d0", "k1", 1),
+        AnnotationBuilder::new().with_id("A2").with_target(t("r0", 0, 5)).with_data("d0", "k0", "x"),
+        AnnotationBuilder::new().with_id("A3").with_target(SelectorBuilder::resourceselector("r0")).with_data("d0", "k1", 2),
+        AnnotationBuilder::new().with_id("A4").with_target(SelectorBuilder::datasetselector("d0")).with_data("d1", "k0", "y"),
+        AnnotationBuilder::new().with_id("A5").with_target(SelectorBuilder::annotationselector("A1", None)).with_data("d0", "k2", "n"),
+        AnnotationBuilder::new().with_id("A6").with_target(SelectorBuilder::annotationselector("A1", Some(Offset::whole()))).with_data("d0", "k2", "o"),
+        AnnotationBuilder::new().with_id("A7").with_target(SelectorBuilder::datakeyselector("d0", "k1")).with_data("d1", "k1", "about key"),
+        AnnotationBuilder::new().with_id("A8").with_target(SelectorBuilder::multiselector(vec![t("r0", 6, 7), t("r0", 7, 8), t("r0", 8, 9), t("r1", 0, 6)])).with_data("d0", "k0", "m"),
+        AnnotationBuilder::new().with_id("A9").with_target(SelectorBuilder::compositeselector(vec![SelectorBuilder::annotationselector("A2", None), SelectorBuilder::annotationselector("A3", None), SelectorBuilder::resourceselector("r1"), SelectorBuilder::datasetselector("d1")])).with_data("d0", "k0", "x"),
+        AnnotationBuilder::new().with_id("A10").with_target(SelectorBuilder::directionalselector(vec![SelectorBuilder::datakeyselector("d0", "k0"), SelectorBuilder::datakeyselector("d1", "k0"), t("r0", 0, 5)])).with_data("d1", "k0", "x"),
+    ];
+    for b in steps { store.annotate(b).unwrap(); }
+    let d = store.dataset("d0").unwrap().key("k2").unwrap().data().next().unwrap().handle();
+    let s = store.dataset("d0").unwrap().handle();
+    store.annotate(AnnotationBuilder::new().with_id("A11").with_target(SelectorBuilder::annotationdataselector(s, d)).with_data("d1", "k1", "about data")).unwrap();
+    store
+}
+
+/// clauses of u_index / u_cascade / u_map / u_dataset / u_store (C01, C02, C03, C10)
+#[test]
+fn find_store_consistency() {
+    let cfgs: Vec<(&str, Box<dyn Fn() -> Config>)> = vec![
+        ("default", Box::new(|| Config::default())),
+        ("annotation_annotation_map off", Box::new(|| Config::default().with_annotation_annotation_map(false))),
+        ("textrelationmap off", Box::new(|| Config::default().with_textrelationmap(false))),
+    ];
+    for (cname, mk) in &cfgs {
+        let store = consistency_base(mk());
+        if let Some(e) = store_inconsistency(&store) { println!("WITNESS {{\"clause\":\"store consistency\",\"config\":\"{}\",\"history\":\"build\",\"inconsistency\":{:?}}}", cname, e); return; }
+        // removal histories only where the cascade can work (it finds dependent annotations through annotation_annotation_map)
+        if !mk().annotation_annotation_map() { continue; }
+        // remove each annotation in turn (fresh store each time), then two in sequence
+        let ids = ["A0", "A1", "A2", "A3", "A4", "A5", "A6", "A7", "A8", "A9", "A10", "A11"];
+        for i in 0..ids.len() { for j in 0..=ids.len() {
+            let mut store = consistency_base(mk());
+            let mut hist = format!("remove {}", ids[i]);
+            if let Some(h) = store.annotation(ids[i]).map(|a| a.handle()) { store.remove_annotation(h).unwrap(); }
+            if let Some(e) = store_inconsistency(&store) { println!("WITNESS {{\"clause\":\"store consistency\",\"config\":\"{}\",\"history\":\"{}\",\"inconsistency\":{:?}}}", cname, hist, e); return; }
+            if j < ids.len() && j != i {
+                hist = format!("{}, remove {}", hist, ids[j]);
+                if let Some(h) = store.annotation(ids[j]).map(|a| a.handle()) { store.remove_annotation(h).unwrap(); }
+                if let Some(e) = store_inconsistency(&store) { println!("WITNESS {{\"clause\":\"store consistency\",\"config\":\"{}\",\"history\":\"{}\",\"inconsistency\":{:?}}}", cname, hist, e); return; }
+            }
+        }}
+        // remove data (strict and not), remove a key, remove a resource, remove a dataset
+        for (hist, op) in [
+            ("remove_data d0/k0=x non-strict", 0), ("remove_data d0/k0=x strict", 1), ("remove_key d0/k1 strict", 2), ("remove_resource r0", 3), ("remove_dataset d1", 4), ("remove_resource r1", 5), ("remove_dataset d0", 6),
+        ] {
+            let mut store = consistency_base(mk());
+            let res = match op {
+                0 | 1 => { let s = store.dataset("d0").unwrap().handle(); let d = store.dataset("d0").unwrap().key("k0").unwrap().data().next().unwrap().handle(); store.remove_data(s, d, op == 1) }
+                2 => { let s = store.dataset("d0").unwrap().handle(); let k = store.dataset("d0").unwrap().key("k1").unwrap().handle(); store.remove_key(s, k, true) }
+                3 => store.remove_resource("r0"),
+                4 => store.remove_dataset("d1"),
+                5 => store.remove_resource("r1"),
+                _ => store.remove_dataset("d0"),
+            };
+            if let Err(e) = &res { println!("(history '{}' not applicable: {:?})", hist, e); continue; }
+            if let Some(e) = store_inconsistency(&store) { println!("WITNESS {{\"clause\":\"store consistency\",\"config\":\"{}\",\"history\":\"{}\",\"inconsistency\":{:?}}}", cname, hist, e); return; }
+        }
+    }
+    println!("NO-WITNESS find_store_consistency");
+}
